@@ -52,6 +52,13 @@ def jobs(tier, seed):
         add(fmt=fmt, reps=['r0'], nrec=[7], first=[6], step=[2], **pp)
         add(fmt=fmt, reps=['r0'], nrec=[8], first=[9], step=[3], sel=dict(r_start=[2], r_stop=[7]), **pp)
         add(fmt=fmt, reps=['r0', 'r1'], nrec=[8, 7], first=[4, 10], step=[2, 5], sel=dict(r_start=[None, 2], r_stop=[6, None]), **pp)
+    # the energy-density extraction behind extract_t0 / extract_w0 (same files as the flow reader): values per flow time, configuration numbers
+    # (records one trajectory apart after a thermalisation phase included), selections, timeslice window, plaquette definition
+    add(fmt='edens', reps=['r0'], nrec=[5], first=[1], step=[1])
+    add(fmt='edens', reps=['r0', 'r1'], nrec=[6, 5], first=[7, 1], step=[1, 1])
+    add(fmt='edens', reps=['r0'], nrec=[8], first=[7], step=[1], sel=dict(r_start=[2], r_stop=[7]))
+    add(fmt='edens', reps=['r0'], nrec=[6], first=[6], step=[2], p=dict(nn=2, tmax=4, xmin=1))
+    add(fmt='edens', reps=['r2', 'r10', 'r1'], nrec=[5, 5, 6], first=[1, 1, 1], step=[1, 1, 1], listing=[1, 2, 0], p=dict(plaquette=True))
     # explicit chain names (names=): assigned in the numeric order of the replica numbers, whatever the listing order
     for fmt in ('rwms16', 'qtop', 'ms5', 'sfqcd'):
         pp = dict(p=dict(ncs=1, tmax=2, index_aim=1)) if fmt == 'sfqcd' else {}
